@@ -83,7 +83,7 @@ func Classify(sql string) string {
 		return "readLedger"
 	case strings.HasPrefix(s, "select") && has("schemas"):
 		return "readSchema"
-	case strings.HasPrefix(s, "select") && has("logs"):
+	case (strings.HasPrefix(s, "select") || strings.HasPrefix(s, "with \"dataset\"")) && has(".logs") && !has("logs_blocks"):
 		return "readLogs"
 	case strings.HasPrefix(s, "with data_batch") && has("accounts"):
 		return "upsertAccounts"
